@@ -68,6 +68,42 @@ type Case struct {
 	// DefaultRecover: no recover function is configured, gqlgen's own DefaultRecover
 	// presents panics ("internal system error"); the hook cannot be counted then.
 	DefaultRecover bool `json:"default_recover,omitempty"`
+	// OpRecover: the counting recover hook is installed PER OPERATION (an operation context
+	// mutator sets OperationContext.RecoverFunc); the server-wide hook is a decoy that must
+	// never run for a panic raised inside an operation.
+	OpRecover bool `json:"op_recover,omitempty"`
+}
+
+// opRecoverExt installs a recover hook on every operation context it sees.
+type opRecoverExt struct{ hook graphql.RecoverFunc }
+
+func (opRecoverExt) ExtensionName() string                         { return "OpRecover" }
+func (opRecoverExt) Validate(schema graphql.ExecutableSchema) error { return nil }
+func (e opRecoverExt) MutateOperationContext(ctx context.Context, rc *graphql.OperationContext) *gqlerror.Error {
+	rc.RecoverFunc = e.hook
+	return nil
+}
+
+// InstallRecover wires the counting recover hook of this instance: server-wide, or per
+// operation with a server-wide decoy (Case.OpRecover).
+func (in *Inst) InstallRecover(set func(graphql.RecoverFunc), use func(graphql.HandlerExtension)) {
+	count := func(ctx context.Context, err any) error {
+		in.Env.mu.Lock()
+		in.Env.Panics++
+		in.Env.mu.Unlock()
+		return fmt.Errorf("PANIC:%v", err)
+	}
+	if !in.C.OpRecover {
+		set(count)
+		return
+	}
+	set(func(ctx context.Context, err any) error {
+		in.Env.mu.Lock()
+		in.Env.WrongHook++
+		in.Env.mu.Unlock()
+		return fmt.Errorf("WRONG-HOOK:%v", err)
+	})
+	use(opRecoverExt{hook: count})
 }
 
 // Shared holds per-process immutable pieces.
@@ -277,12 +313,7 @@ func (in *Inst) Body() {
 	ex := executor.New(s.es)
 	ex.Use(FaultExt{Cur: func() *Env { return s.cur }})
 	if !in.C.DefaultRecover {
-		ex.SetRecoverFunc(func(ctx context.Context, err any) error {
-			in.Env.mu.Lock()
-			in.Env.Panics++
-			in.Env.mu.Unlock()
-			return fmt.Errorf("PANIC:%v", err)
-		})
+		in.InstallRecover(ex.SetRecoverFunc, ex.Use)
 	}
 	if in.C.Op.Vars != nil {
 		b, _ := json.Marshal(in.C.Op.Vars)
@@ -452,6 +483,9 @@ func (in *Inst) compareRef(q Quirks) string {
 		if !eqStrings(wantExt, in.Resp[0].Ext) {
 			return fmt.Sprintf("extensions mismatch:\n  want %v\n  got  %v", wantExt, in.Resp[0].Ext)
 		}
+	}
+	if in.Env.WrongHook > 0 {
+		return fmt.Sprintf("recover hook: the server-wide hook ran %d times although the operation carries its own", in.Env.WrongHook)
 	}
 	if in.Env.Panics != np && !in.C.DefaultRecover {
 		return fmt.Sprintf("recover hook invoked %d times for %d injected panics", in.Env.Panics, np)
